@@ -224,6 +224,16 @@ func GenMap(r *mon.RNG, o *MapOpts) *GMap {
 			}
 		}
 	}
+	// A state without any rule, and a rule that pushes it: a valid definition (nothing can be lexed in that state).
+	if o.OddNames && !o.Supported && r.Chance(1, 8) {
+		g.States = append(g.States, "Hollow")
+		g.Rules["Hollow"] = nil
+		rx := &RX{Op: "lit", Lit: "%h"}
+		nm := newName(false)
+		pool[nm] = rx
+		st := g.States[r.Intn(ns)]
+		g.Rules[st] = append(g.Rules[st], GRule{Name: nm, Pattern: rx.String(), rx: rx, Action: "push", Target: "Hollow"})
+	}
 	// Hostile: a pushing rule whose group may not participate.
 	if o.Hostile && ns > 1 && r.Chance(1, 2) {
 		rx := &RX{Op: "cat", Kids: []*RX{{Op: "quest", Kids: []*RX{{Op: "cap", Kids: []*RX{{Op: "lit", Lit: "<"}}}}}, {Op: "lit", Lit: "("}, {Op: "cap", Kids: []*RX{{Op: "star", Kids: []*RX{{Op: "class", Set: []rune{'a', 'c'}}}}}}}}
@@ -234,6 +244,24 @@ func GenMap(r *mon.RNG, o *MapOpts) *GMap {
 		gr := GRule{Name: nm, Pattern: rx.String(), rx: rx, Action: "push", Target: tgt}
 		pos := r.Intn(len(g.Rules[st]) + 1)
 		g.Rules[st] = append(g.Rules[st][:pos], append([]GRule{gr}, g.Rules[st][pos:]...)...)
+		if maxGroups[tgt] < 2 {
+			maxGroups[tgt] = 2
+		}
+	}
+	// Hostile: a pushing rule that can match the empty string and has a capture group: `( *)`, `(x?)(y*)`.
+	if o.Hostile && ns > 1 && r.Chance(1, 3) {
+		var rx *RX
+		if r.Bool() {
+			rx = &RX{Op: "cap", Kids: []*RX{{Op: "star", Kids: []*RX{{Op: "lit", Lit: " "}}}}}
+		} else {
+			rx = &RX{Op: "cat", Kids: []*RX{{Op: "cap", Kids: []*RX{{Op: "quest", Kids: []*RX{{Op: "lit", Lit: "x"}}}}}, {Op: "cap", Kids: []*RX{{Op: "star", Kids: []*RX{{Op: "lit", Lit: "y"}}}}}}}
+		}
+		nm := newName(o.Elide && r.Bool())
+		pool[nm] = rx
+		tgt := g.States[1+r.Intn(ns-1)]
+		st := g.States[r.Intn(ns)]
+		gr := GRule{Name: nm, Pattern: rx.String(), rx: rx, Action: "push", Target: tgt}
+		g.Rules[st] = append(g.Rules[st], gr)
 		if maxGroups[tgt] < 2 {
 			maxGroups[tgt] = 2
 		}
